@@ -1,5 +1,11 @@
-(* C19 — The output stream contains no redundant events.  Statements only. *)
+(* C19 — The output stream contains no redundant events.  Statements only.
+   C19_no_redundant is about the events the mapper returns; the theorems at the
+   end carry it through the event loop to what is WRITTEN to the virtual
+   keyboard, timer chords included (TM.LoopDevice, proofs in
+   TM.LoopDeviceLemmas; the extracted monitor runs on the transcripts of the
+   REAL loop, clause C19.device). *)
 From TM Require Import Base Mapper Monitors Trace MapperInv MapperProps.
+From TM Require Loop LoopSpec LoopDevice LoopDeviceLemmas.
 
 (* For EVERY classification of keys into modifiers/ordinary keys, EVERY layout
    that Mapper::for_layout accepts (non-empty duplicate-free triggers,
@@ -35,3 +41,38 @@ Example C19_example :
   = [Pressed 42%N; Pressed 45%N; Released 45%N; Released 42%N; Pressed 42%N; Pressed 21%N;
      Released 42%N; Released 21%N; Pressed 46%N].
 Proof. vm_compute. split; reflexivity. Qed.
+
+(* ---------- at the device: through the event loop ---------- *)
+
+(* In EVERY configuration of EVERY run of the per-device loop (any answer
+   script: batching, time-outs with their timer chords, tablet events, errors),
+   layout accepted by Mapper::for_layout: the events of all acknowledged sends
+   followed by the send being waited on, folded from the empty held set, never
+   press a held key and never release a key that is up. *)
+Theorem C19_loop_no_redundant_event_written :
+  forall (is_action : key -> bool) (L : layout),
+    for_layout_ok L = true ->
+    forall (rs : list Loop.resp) (cs : list Loop.call) (o : Loop.outcome) (k : nat) (x : LoopSpec.conf),
+    Loop.run is_action L rs = (cs, o) -> LoopSpec.conf_at is_action L rs k = Some x ->
+    redundant [] (LoopDeviceLemmas.written_at cs rs k x) = false.
+Proof. intros ia L Hok rs cs o k x. exact (LoopDeviceLemmas.loop_device_no_redundant ia L rs cs o k x Hok). Qed.
+Print Assumptions C19_loop_no_redundant_event_written.
+
+(* The extracted one-pass monitor LoopDevice.device_check (applied by the loop
+   engine to every transcript of the REAL loop; clause D_redundant is reported
+   as C19.device) never fires on a transcript of the model, for ALL answer
+   scripts.  What a hit means: C01_device_monitor_hit_means; a transcript on
+   which it fires: C01_example_device_monitor (Properties/C01.v). *)
+Theorem C19_loop_device_no_redundant_event :
+  forall (is_action : key -> bool) (L : layout),
+    for_layout_ok L = true ->
+    forall (rs : list Loop.resp) (cs : list Loop.call) (o : Loop.outcome),
+    Loop.run is_action L rs = (cs, o) ->
+    LoopDevice.device_check is_action L (combine cs rs) = []
+    /\ forall n : N, ~ In (n, LoopDevice.D_redundant) (LoopDevice.device_check is_action L (combine cs rs)).
+Proof.
+  intros ia L Hok rs cs o Hrun. split.
+  - exact (LoopDeviceLemmas.device_check_silent ia L rs cs o Hok Hrun).
+  - intros n. exact (LoopDeviceLemmas.device_clause_silent ia L rs cs o Hok Hrun n LoopDevice.D_redundant).
+Qed.
+Print Assumptions C19_loop_device_no_redundant_event.
